@@ -149,9 +149,9 @@ Print Assumptions C14_index_independent_of_announcements.
 
 (* ------------------------------------------------------------------ 4. crash convergence *)
 
-(* A service history is a list of lives `SL (Inc start end kill) startfail plan`: the process starts when the node is at
-   `start`, the node grows to `end` while it runs, the process is killed after `kill` batch writes; `startfail` = Status
-   or Subscribe returned an error (OnStart returns before anything is read or written); `plan` = for each height the
+(* A service history is a list of lives `SL (Inc start end kill) earliest startfail plan`: the process starts when the node
+   is at `start` (its EarliestBlockHeight being `earliest`), the node grows to `end` while it runs, the process is
+   killed after `kill` batch writes; `startfail` = Status or Subscribe returned an error (OnStart returns before anything is read or written); `plan` = for each height the
    outcomes (true = error) of the successive Block(h) and BlockResults(h) calls of the node client during this life.
    `tolerable L`: during catch-up (heights <= start) no height is fetched in vain more than 10 times; heights fetched by
    the live loop (> start) may fail ANY number of times.
@@ -162,13 +162,13 @@ Print Assumptions C14_index_independent_of_announcements.
    EMPTY index DB begins with the node exactly where the indexer had got to (lives that fail to start are exempt).
    (Blocks without Ethereum transactions leave no key: after a restart with a non-empty DB they are indexed again -
    harmless by idempotence, part of this proof.) *)
-Theorem C14_crash_converges_partial : forall c earliest s0 l fin,
-  earliest <= 1 -> 0 <= s0 -> s0 <= Z.of_nat (length c) ->
+Theorem C14_crash_converges_partial : forall c s0 l fin,
+  (forall L, In L (l ++ [fin]) -> sl_earliest L <= 1) -> 0 <= s0 -> s0 <= Z.of_nat (length c) ->
   (forall L, In L (l ++ [fin]) -> tolerable L) ->
-  ssched_ok c earliest [] s0 (l ++ [fin]) = true ->
+  ssched_ok c [] s0 (l ++ [fin]) = true ->
   sl_startfail fin = false ->
   i_end (sl_inc fin) = Z.of_nat (length c) -> Z.of_nat (length c) <= Z.of_nat (i_kill (sl_inc fin)) ->
-  slife_run c earliest (l ++ [fin]) = run_from c s0.
+  slife_run c (l ++ [fin]) = run_from c s0.
 Proof. exact crash_converges_rpc. Qed.
 Print Assumptions C14_crash_converges_partial.
 
@@ -183,15 +183,15 @@ Print Assumptions C14_crash_converges_node_always_answers.
 
 (* per life and from ANY database: transient failures of the node client leave no trace in the index - the life writes
    exactly what it writes over a node that always answers (a failed fetch is retried at the same height) *)
-Theorem C14_transient_rpc_failures_leave_no_trace : forall c earliest d L, tolerable L -> sl_startfail L = false ->
-  run_slife c earliest d L = run_incarnation c earliest d (sl_inc L).
+Theorem C14_transient_rpc_failures_leave_no_trace : forall c d L, tolerable L -> sl_startfail L = false ->
+  run_slife c d L = run_incarnation c (sl_earliest L) d (sl_inc L).
 Proof. exact rpc_failures_invisible. Qed.
 Print Assumptions C14_transient_rpc_failures_leave_no_trace.
 
 (* failures in the live new-block loop only (none planned for the catch-up heights): no bound on their number *)
-Theorem C14_live_loop_failures_leave_no_trace : forall c earliest d L,
+Theorem C14_live_loop_failures_leave_no_trace : forall c d L,
   (forall h, h <= i_start (sl_inc L) -> failures (sl_plan L) h = 0%nat) -> sl_startfail L = false ->
-  run_slife c earliest d L = run_incarnation c earliest d (sl_inc L).
+  run_slife c d L = run_incarnation c (sl_earliest L) d (sl_inc L).
 Proof. exact live_loop_failures_invisible. Qed.
 Print Assumptions C14_live_loop_failures_leave_no_trace.
 
@@ -228,9 +228,22 @@ Print Assumptions C14_crash_converges_any_node_failures_refuted.
    of the index is an answer of the uninterrupted index, hence (C14_index_answers_are_real) the real position of a real
    transaction *)
 Theorem C14_any_history_only_real_answers : forall c, wf_chain c = true -> NoDup (chain_hashes c) ->
-  forall earliest l h r, get_by_hash (slife_run c earliest l) h = Some r -> get_by_hash (run c) h = Some r.
+  forall l h r, get_by_hash (slife_run c l) h = Some r -> get_by_hash (run c) h = Some r.
 Proof. exact any_rpc_history_answers_are_real. Qed.
 Print Assumptions C14_any_history_only_real_answers.
+
+(* restart on a node that has pruned past the last indexed block (EarliestBlockHeight > last indexed block): the life -
+   not killed before the end, tolerating its node - indexes every block the node still serves, the earliest one
+   included (fixed in /repo: the service used to resume one block too late) *)
+Theorem C14_pruned_restart_indexes_from_earliest : forall c d L H b k v,
+  let i := sl_inc L in
+  sl_startfail L = false -> tolerable L ->
+  last_indexed d <> -1 -> last_indexed d < sl_earliest L -> 1 <= sl_earliest L ->
+  (Z.to_nat (i_end i - (sl_earliest L - 1)) <= i_kill i)%nat ->
+  sl_earliest L <= H <= i_end i -> block_at c H = Some b -> In (k, v) (index_block H b) ->
+  db_get k (run_slife c d L) <> None.
+Proof. exact pruned_restart_indexes_from_earliest. Qed.
+Print Assumptions C14_pruned_restart_indexes_from_earliest.
 
 (* the boolean checks evaluated on every harness chain give the hypotheses used above *)
 Theorem C14_chain_hyps_sound : forall c, chain_hyps c = true ->
@@ -303,17 +316,18 @@ Definition ex_four : txv :=
 Definition ex_chain4 : chain := ex_chain ++ [[ex_four]].
 Definition ex_plan : list hplan := [HP 3 [true] (repeat true 9); HP 4 [false; true] [true]].
 Definition ex_history : list slife :=
-  [SL (Inc 0 2 2) false [HP 2 [true; true] []]; SL (Inc 3 3 9) true []] ++ [SL (Inc 4 4 9) false ex_plan].
+  [SL (Inc 0 2 2) 1 false [HP 2 [true; true] []]; SL (Inc 3 3 9) 1 true []] ++ [SL (Inc 4 4 9) 1 false ex_plan].
 
 Example C14_example_node_failures :
   chain_hyps ex_chain4 = true /\
-  ssched_ok ex_chain4 1 [] 0 ex_history = true /\
-  (forall L, In L ex_history -> tolerable L) /\
-  slife_run ex_chain4 1 ex_history = run ex_chain4 /\
+  ssched_ok ex_chain4 [] 0 ex_history = true /\
+  (forall L, In L ex_history -> tolerable L /\ sl_earliest L <= 1) /\
+  slife_run ex_chain4 ex_history = run ex_chain4 /\
   failures ex_plan 3 = 10%nat /\ failures ex_plan 4 = 2%nat.
 Proof.
   split; [vm_compute; reflexivity|]. split; [vm_compute; reflexivity|]. split; [|vm_compute; repeat split].
-  intros L HL h _. unfold startup_failure_threshold.
+  intros L HL. split; [|cbn in HL; repeat (destruct HL as [<-|HL]; [cbn; lia|]); contradiction].
+  intros h _. unfold startup_failure_threshold.
   cbn in HL. repeat (destruct HL as [<-|HL]; [unfold failures, plan_at; cbn [sl_plan find hp_height hp_block hp_results ex_plan];
     repeat (match goal with |- context [?a =? h] => destruct (a =? h) end); vm_compute; lia|]). contradiction.
 Qed.
@@ -321,17 +335,27 @@ Qed.
 (* one more failed fetch of block 3 during catch-up and the service gives up on it: block 4 is indexed, the resume point
    is past block 3, and another (undisturbed) life does not bring its transaction back *)
 Definition ex_history_gives_up : list slife :=
-  [SL (Inc 0 2 2) false []; SL (Inc 4 4 9) false [HP 3 [true] (repeat true 10)]; SL (Inc 4 4 9) false []].
+  [SL (Inc 0 2 2) 1 false []; SL (Inc 4 4 9) 1 false [HP 3 [true] (repeat true 10)]; SL (Inc 4 4 9) 1 false []].
 (* the same failures met in the live loop (the node is at 2 when the life starts) are retried for as long as it takes *)
 Definition ex_history_live : list slife :=
-  [SL (Inc 0 2 2) false []; SL (Inc 2 4 9) false [HP 3 [true] (repeat true 10)]].
+  [SL (Inc 0 2 2) 1 false []; SL (Inc 2 4 9) 1 false [HP 3 [true] (repeat true 10)]].
 
 Example C14_example_startup_gives_up :
-  ssched_ok ex_chain4 1 [] 0 ex_history_gives_up = true /\
-  get_by_hash (slife_run ex_chain4 1 ex_history_gives_up) 15 = None /\
+  ssched_ok ex_chain4 [] 0 ex_history_gives_up = true /\
+  get_by_hash (slife_run ex_chain4 ex_history_gives_up) 15 = None /\
   get_by_hash (run ex_chain4) 15 = Some (Res 3 0 0 false) /\
-  get_by_hash (slife_run ex_chain4 1 ex_history_gives_up) 16 = Some (Res 4 0 0 false) /\
-  slife_run ex_chain4 1 ex_history_live = run ex_chain4.
+  get_by_hash (slife_run ex_chain4 ex_history_gives_up) 16 = Some (Res 4 0 0 false) /\
+  slife_run ex_chain4 ex_history_live = run ex_chain4.
+Proof. vm_compute. repeat split. Qed.
+
+(* the node pruned blocks 1-2 while the indexer (which had indexed block 2) was down: block 3, the earliest block the
+   node still serves, is indexed by the next life *)
+Example C14_example_pruned_restart :
+  let d := run_slife ex_chain4 [] (SL (Inc 0 2 9) 1 false []) in
+  last_indexed d = 2 /\
+  get_by_hash (run_slife ex_chain4 d (SL (Inc 4 4 9) 3 false [])) 15 = Some (Res 3 0 0 false) /\
+  get_by_hash (run_slife ex_chain4 d (SL (Inc 4 4 9) 4 false [])) 15 = None /\
+  get_by_hash (run_slife ex_chain4 d (SL (Inc 4 4 9) 4 false [])) 16 = Some (Res 4 0 0 false).
 Proof. vm_compute. repeat split. Qed.
 
 Example C14_example_any_order :
